@@ -179,6 +179,20 @@ def _user_constants_config():
     return {".osyris/config_osyris.py": new}
 
 
+def _user_defaultdict_config():
+    """A user configuration as in the documentation's example: configure_units returns a defaultdict (unknown names are
+    dimensionless) holding the same entries, wildcard names included."""
+    text = open(os.path.join(repo_root(), "src", "osyris", "config", "defaults.py")).read()
+    extra = (
+        "    from collections import defaultdict\n\n"
+        '    library = defaultdict(lambda: 1.0 * units("dimensionless"), library)\n'
+        "    return library\n"
+    )
+    if "    return library\n" not in text:
+        raise RuntimeError("harness: defaults.py has no 'return library' to extend")
+    return {".osyris/config_osyris.py": text.replace("    return library\n", extra, 1)}
+
+
 ENVIRONMENTS = {
     "python-O": {"flags": ["-O"]},
     "PYTHONOPTIMIZE=2": {"env": {"PYTHONOPTIMIZE": "2"}},
@@ -186,6 +200,7 @@ ENVIRONMENTS = {
     # numba's switch for running its kernels as plain Python (debugging, coverage): same results, only slower
     "NUMBA_DISABLE_JIT=1": {"env": {"NUMBA_DISABLE_JIT": "1"}},
     "user-constants": {"home_files": _user_constants_config},
+    "user-units-defaultdict": {"home_files": _user_defaultdict_config},
 }
 
 
